@@ -10,9 +10,19 @@ Local Open Scope Z_scope.
 Ltac gen_unfold :=
   unfold lcs_empty_cond, lcs_swap_cond, lcs_row_len, lcs_row_len_c, lcs_j_init, lcs_j_cond,
     lcs_j_next, lcs_i_init, lcs_i_cond, lcs_i_next, lcs_as_idx, lcs_bs_idx, lcs_match_dst,
-    lcs_diag_idx_n, lcs_diag_idx, lcs_tie_cond, lcs_left_idx_n, lcs_up_idx_n, lcs_left_dst,
+    lcs_diag_idx_n, lcs_diag_idx, lcs_left_idx_n, lcs_up_idx_n, lcs_left_dst,
     lcs_left_idx, lcs_up_dst, lcs_up_idx, lcs_last_idx, lcs_out_idx, lcs_walk_cond,
     lcs_ncalls_reverse in *.
+
+(* all the optimality proof needs of the tie rule: it picks a neighbour that is not the shorter
+   one (holds for `>=` and equally for `>`) *)
+Lemma tie_cond_sound : forall a b,
+  (lcs_tie_cond a b = true -> a >= b) /\ (lcs_tie_cond a b = false -> b >= a).
+Proof.
+  intros a b. unfold lcs_tie_cond. split; intro H.
+  - first [apply Z.geb_le in H | apply Z.gtb_lt in H]; lia.
+  - first [rewrite Z.geb_leb in H; apply Z.leb_gt in H | rewrite Z.gtb_ltb in H; apply Z.ltb_ge in H]; lia.
+Qed.
 
 Section LcsProofs.
   Variable T : Type.
@@ -84,13 +94,14 @@ Section LcsProofs.
         pose proof (length_removelast_le u). rewrite app_length; cbn; lia.
     Qed.
 
-    Lemma good_nomatch : forall j k a b l u,
+    Lemma good_nomatch : forall j k a b l u (pick : bool),
       nth_error xs k = Some a -> nth_error ys j = Some b -> eqb a b = false ->
       Good (S j) k l -> Good j (S k) u ->
-      Good (S j) (S k) (if cell_n l >=? cell_n u then l else u).
+      (pick = true -> cell_n l >= cell_n u) -> (pick = false -> cell_n u >= cell_n l) ->
+      Good (S j) (S k) (if pick then l else u).
     Proof.
-      intros j k a b l u Ha Hb Hab (sl & Hvl & Hxl & Hyl & Hol) (su & Hvu & Hxu & Hyu & Hou).
-      rewrite (CellVal_n _ _ Hvl), (CellVal_n _ _ Hvu).
+      intros j k a b l u pick Ha Hb Hab (sl & Hvl & Hxl & Hyl & Hol) (su & Hvu & Hxu & Hyu & Hou).
+      rewrite (CellVal_n _ _ Hvl), (CellVal_n _ _ Hvu). intros Ht Hf.
       assert (Hopt : forall w, Subseq w (firstn (S k) xs) -> SubB w (firstn (S j) ys) ->
                 (length w <= length sl)%nat \/ (length w <= length su)%nat).
       { intros w Hwx Hwy. rewrite (firstn_snoc _ _ _ Ha) in Hwx.
@@ -100,13 +111,13 @@ Section LcsProofs.
           destruct (SubseqR_snoc_inv _ _ _ _ Hwy) as [H2 | (w'' & x' & E & Hx' & H2)].
           + right. apply Hou; auto. rewrite (firstn_snoc _ _ _ Ha). exact Hwx.
           + apply app_inj_tail in E. destruct E as [_ <-]. cbv beta in Hx'. congruence. }
-      rewrite Z.geb_leb. destruct (Z.leb_spec (zlen su) (zlen sl)) as [E|E].
-      - exists sl. repeat split; auto.
+      destruct pick.
+      - specialize (Ht eq_refl). exists sl. repeat split; auto.
         + rewrite (firstn_snoc _ _ _ Ha). now apply SubseqR_app_r.
-        + intros w Hwx Hwy. destruct (Hopt w Hwx Hwy); unfold zlen in E; lia.
-      - exists su. repeat split; auto.
+        + intros w Hwx Hwy. destruct (Hopt w Hwx Hwy); unfold zlen in Ht; lia.
+      - specialize (Hf eq_refl). exists su. repeat split; auto.
         + rewrite (firstn_snoc _ _ _ Hb). now apply SubseqR_app_r.
-        + intros w Hwx Hwy. destruct (Hopt w Hwx Hwy); unfold zlen in E; lia.
+        + intros w Hwx Hwy. destruct (Hopt w Hwx Hwy); unfold zlen in Hf; lia.
     Qed.
 
     (* the inner loop: columns 0..k of c are already right for row S j; fills the rest *)
@@ -147,8 +158,9 @@ Section LcsProofs.
       - rewrite Hd.
         destruct (Hfin _ (good_match _ _ _ _ _ Ha Hb Eab (Hp _ _ Hd))) as (c2 & -> & R). exact R.
       - rewrite Hl, Hu.
-        pose proof (good_nomatch _ _ _ _ _ _ Ha Hb Eab (Hc _ _ (le_n k) Hl) (Hp _ _ Hu)) as G.
-        destruct (cell_n l >=? cell_n u).
+        destruct (tie_cond_sound (cell_n l) (cell_n u)) as [Htt Htf].
+        pose proof (good_nomatch _ _ _ _ _ _ _ Ha Hb Eab (Hc _ _ (le_n k) Hl) (Hp _ _ Hu) Htt Htf) as G.
+        destruct (lcs_tie_cond (cell_n l) (cell_n u)).
         + destruct (Hfin _ G) as (c2 & -> & R). exact R.
         + destruct (Hfin _ G) as (c2 & -> & R). exact R.
     Qed.
